@@ -161,37 +161,47 @@ inductive Outcome where
   | internalOrOff
   deriving DecidableEq, Repr, Inhabited
 
+/-- What `set_transit_compartments` reads of the model besides its feature vector. -/
+structure Ctx where
+  /-- a parameter `POP_MDT` is still defined once the lag time is removed (it is after transit
+      compartments, after SEQ-ZO-FO created from first-order/instantaneous absorption, or as a leftover of an
+      earlier `keep_depot=False`; it is not when the zero-order duration is `2*MAT`) -/
+  mdtDefined : Bool
+  deriving DecidableEq, Repr, Inhabited
+
+/-- The part of `set_transit_compartments` after the `keep_depot` handling. `hadLag`: a lag time was
+    removed and the stale ODE system still carries it. -/
+def transitsTail (s : FV) (n : Nat) (hadLag : Bool) : Outcome :=
+  if s.transits = n then .ok s
+  else if n = 1 ∧ s.abs = .inst then .refuse
+  else if hadLag ∧ n ≠ 0 then
+    -- the new graph is built from the ODE system fetched *before* remove_lag_time: the lag time
+    -- stays behind on the old dosing compartment
+    if s.transits = 0 then .off                         -- … which is no longer the dosing compartment
+    else if n = 1 ∧ s.depot = false then .internalOrOff
+    else .internalOrOk { s with transits := n, lag := true }   -- … TRANSIT1 keeps a lag time whose definition is gone
+  else if n = 1 ∧ s.depot = false then
+    -- one transit straight into central: the detectors call it a depot, but it is named TRANSIT1 and
+    -- later transit requests collide with it
+    .off
+  else if n = 0 then
+    -- all transits removed: the dose moves on, its bioavailability does not
+    .ok { s with transits := 0, bio := false }
+  else .ok { s with transits := n }
+
 /-- `set_transit_compartments(n, keep_depot)` on the feature vector, as the code behaves. -/
-def setTransits (s : FV) (n : Nat) (keep : Bool) : Outcome :=
+def setTransits (c : Ctx) (s : FV) (n : Nat) (keep : Bool) : Outcome :=
   -- `model = remove_lag_time(model)` comes first, unconditionally
   let hadLag := s.lag
   let s := { s with lag := false }
   if !keep && s.depot then
-    -- MAT is renamed to MDT although MDT already exists (transits or zero-order duration)
-    if s.transits ≠ 0 || s.zo then .internal
+    -- MAT is renamed to MDT: fails when POP_MDT is already there
+    if c.mdtDefined then .internal
     else
-      -- the depot is removed; its bioavailability is not transferred
-      let s := { s with depot := false, bio := false }
-      if n = 0 then .ok s
-      else if n = 1 then .refuse
-      else .ok { s with transits := n }
-  else
-    if s.transits = n then .ok s
-    else if n = 1 ∧ s.abs = .inst then .refuse
-    else if hadLag ∧ n ≠ 0 then
-      -- the new graph is built from the ODE system fetched *before* remove_lag_time: the lag time
-      -- stays behind on the old dosing compartment
-      if s.transits = 0 then .off                         -- … which is no longer the dosing compartment
-      else if n = 1 ∧ s.depot = false then .internalOrOff
-      else .internalOrOk { s with transits := n, lag := true }   -- … TRANSIT1 keeps a lag time whose definition is gone
-    else if n = 1 ∧ s.depot = false then
-      -- one transit straight into central: the detectors call it a depot, but it is named TRANSIT1 and
-      -- later transit requests collide with it
-      .off
-    else if n = 0 then
-      -- all transits removed: the dose moves on, its bioavailability does not
-      .ok { s with transits := 0, bio := false }
-    else .ok { s with transits := n }
+      -- the depot is removed (with its lag time); its bioavailability is not transferred; the ODE system is re-read
+      if s.transits = 1 ∧ n = 1 then .off      -- TRANSIT1 -> CENTRAL is left: a depot by another name
+      else transitsTail { s with depot := false, bio := false } n false
+  else transitsTail s n hadLag
 
 def setAbs (s : FV) (a : Abs) : Outcome :=
   match a with
@@ -233,14 +243,14 @@ def setAbs (s : FV) (a : Abs) : Outcome :=
       else .ok { s with zo := false }                                     -- only the infusion becomes a bolus
 
 /-- The setters on the feature vector, as the code behaves. -/
-def setFV (r : Req) (s : FV) : Outcome :=
+def setFV (c : Ctx) (r : Req) (s : FV) : Outcome :=
   match r with
   | .abs a => setAbs s a
   | .elim e => .ok { s with elim := e }
   | .periph k => .ok { s with periph := k }
   | .periphAdd => .ok { s with periph := s.periph + 1 }
   | .periphRemove => .ok { s with periph := s.periph - 1 }
-  | .transits n keep => setTransits s n keep
+  | .transits n keep => setTransits c s n keep
   | .lag on => .ok { s with lag := on }
   | .bio on => .ok { s with bio := on }
 
@@ -319,19 +329,23 @@ inductive DefectClass where
   | instDropsBio           -- set_instantaneous_absorption on a depot with bioavailability loses it
   deriving DecidableEq, Repr
 
-def defectOf (r : Req) (s : FV) : Option DefectClass :=
+def defectTransitsTail (s : FV) (n : Nat) (hadLag : Bool) : Option DefectClass :=
+  if s.transits = n then none
+  else if n = 1 ∧ s.abs = .inst then none
+  else if hadLag ∧ n ≠ 0 then some .transitsStaleLag
+  else if n = 1 ∧ s.depot = false then some .singleTransitNoDepot
+  else if n = 0 ∧ s.bio then some .transitsDropBio
+  else none
+
+def defectOf (c : Ctx) (r : Req) (s : FV) : Option DefectClass :=
   match r with
   | .transits n keep =>
     if !keep && s.depot then
-      if s.transits ≠ 0 || s.zo then some .nodepotRenameClash
-      else if s.bio && n ≠ 1 then some .transitsDropBio
-      else none
-    else if s.transits = n then none
-    else if n = 1 ∧ s.abs = .inst then none
-    else if s.lag ∧ n ≠ 0 then some .transitsStaleLag
-    else if n = 1 ∧ s.depot = false then some .singleTransitNoDepot
-    else if n = 0 ∧ s.bio then some .transitsDropBio
-    else none
+      if c.mdtDefined then some .nodepotRenameClash
+      else if s.transits = 1 ∧ n = 1 then some .singleTransitNoDepot
+      else if s.bio ∧ ¬ (n = 1 ∧ s.zo = false ∧ s.transits = 0) then some .transitsDropBio
+      else defectTransitsTail { s with depot := false, bio := false, lag := false } n false
+    else defectTransitsTail s n s.lag
   | .abs .fo =>
     if s.abs = .seq then
       if s.transits ≠ 0 then some .foOnSeqTransits
